@@ -255,7 +255,8 @@ void BufferedFd::onReadCallback(short)
             --cb_level_;
         }
     } else {    //! 读出错了
-        if (errno != EAGAIN) {
+        //! EINTR: nothing was read and nothing is wrong with fd_, the read event fires again
+        if (errno != EAGAIN && errno != EINTR) {
             int errnum = errno;
             //! the stream ends here too: hand over what is still buffered before the error is reported
             if (recv_buff_.readableSize() > 0) {
